@@ -22,6 +22,7 @@ From Coq Require Import ZArith Lia Bool List String.
 From NL.Model Require Import VM.
 From NL.Spec Require Import GCInv VMInv.
 From NL.Proofs Require Import GCProofs VMGCLedger VMGCProofs.
+From NL.Proofs Require CompileCorrectH3 CompileCorrectA.
 Open Scope Z_scope.
 
 (** * The real heap is the collection-free heap with some boxes flagged dead *)
@@ -230,7 +231,7 @@ End Words.
 
 Lemma lift_wres_mono : forall hr hn x y, hle hr hn -> wle x y -> ole rle (lift_wres hr x) (lift_wres hn y).
 Proof.
-  intros hr hn x y H [->|->]; [left; reflexivity|].
+  intros hr hn x y H [-> | ->]; [left; reflexivity|].
   destruct x as [w|f|k|f]; cbn [lift_wres ole]; auto.
   - destruct (decode w) as [v|]; cbn [ole]; auto. eexists. split; [reflexivity|apply rle_same; exact H].
   - destruct (hle_alloc hr hn H (OFloat f)) as [A B].
@@ -254,3 +255,820 @@ Proof.
     destruct (h_alloc hr (OFloat (- f)%float)) as [k h1]. destruct (h_alloc hn (OFloat (- f)%float)) as [k' h2].
     cbn [fst snd] in *. subst k'. eexists. split; [reflexivity|]. split; [reflexivity|exact A].
 Qed.
+
+(** ** Builtins *)
+
+Section BuiltinsMono.
+  Variable orc : oracle.
+  Variables hr hn : heap.
+  Hypothesis H : hle hr hn.
+
+  Lemma show_val_mono : forall f v, ole eq (show_val orc f hr v) (show_val orc f hn v).
+  Proof.
+    induction f as [|f IH]; intros v; [reflexivity|]. cbn [show_val].
+    destruct v; try (apply ole_refl; reflexivity).
+    - apply (ole_bind _ _ _ _ eq eq _ _ _ _ (hle_get_float hr hn H l)). intros x y <-. apply ole_refl; reflexivity.
+    - apply hle_get_str; exact H.
+    - apply (ole_bind _ _ _ _ eq eq _ _ _ _ (hle_get_arr hr hn H l)). intros vs vs' <-.
+      apply (ole_bind _ _ _ _ eq eq).
+      + generalize true. induction vs as [|x r IHr]; intros first; [apply ole_refl; reflexivity|].
+        apply (ole_bind _ _ _ _ eq eq _ _ _ _ (IH x)). intros t t' <-.
+        apply (ole_bind _ _ _ _ eq eq _ _ _ _ (IHr false)). intros rest rest' <-. apply ole_refl; reflexivity.
+      + intros b b' <-. apply ole_refl; reflexivity.
+  Qed.
+
+  Lemma display_mono : forall v, ole eq (display orc hr v) (display orc hn v).
+  Proof. intros v. apply show_val_mono. Qed.
+
+  Lemma fill_mono : forall args rest, ole eq (fill orc hr rest args) (fill orc hn rest args).
+  Proof.
+    induction args as [|a more IH]; intros rest; cbn [fill]; [apply ole_refl; reflexivity|].
+    destruct (find_placeholder rest) as [[before after]|]; [|apply ole_refl; reflexivity].
+    apply (ole_bind _ _ _ _ eq eq _ _ _ _ (display_mono a)). intros t t' <-.
+    apply (ole_bind _ _ _ _ eq eq _ _ _ _ (IH after)). intros x x' <-. apply ole_refl; reflexivity.
+  Qed.
+
+  Lemma call_print_mono : forall args, ole eq (call_print orc hr args) (call_print orc hn args).
+  Proof.
+    intros args. unfold call_print. destruct args as [|a0 rest]; [apply ole_refl; reflexivity|].
+    apply (ole_bind _ _ _ _ eq eq _ _ _ _ (display_mono a0)). intros t t' <-.
+    apply (ole_bind _ _ _ _ eq eq _ _ _ _ (fill_mono rest t)). intros x x' <-. apply ole_refl; reflexivity.
+  Qed.
+
+  Lemma one_arg_mono : forall A B (P : A -> B -> Prop) args (k : val -> outcome A) (k' : val -> outcome B),
+    (forall a, ole P (k a) (k' a)) -> ole P (one_arg args k) (one_arg args k').
+  Proof.
+    intros A B P args k k' Hk. unfold one_arg. destruct args as [|a [|b r]]; cbn [ole]; auto.
+  Qed.
+
+  Lemma ok_same : forall v, ole rle (Ok (v, hr)) (Ok (v, hn)).
+  Proof. intros v. apply ole_ok. apply rle_same. exact H. Qed.
+
+  Lemma ranged_int_mono : forall z, ole rle (ranged_int hr z) (ranged_int hn z).
+  Proof. intros z. unfold ranged_int. destruct (in_int_range z); [apply ok_same|reflexivity]. Qed.
+
+  Lemma call_type_mono : forall args, ole rle (call_type hr args) (call_type hn args).
+  Proof. intros. unfold call_type. apply one_arg_mono. intros a. apply ole_ok. apply rle_alloc_str. exact H. Qed.
+
+  Lemma call_string_mono : forall args, ole rle (call_string orc hr args) (call_string orc hn args).
+  Proof.
+    intros. unfold call_string. apply one_arg_mono. intros a.
+    destruct a; try reflexivity; try (apply ole_ok; apply rle_alloc_str; exact H); try apply ok_same.
+    apply (ole_bind _ _ _ _ eq _ _ _ _ _ (hle_get_float hr hn H l)). intros x x' <-. apply ole_ok. apply rle_alloc_str. exact H.
+  Qed.
+
+  Lemma call_bool_mono : forall args, ole rle (call_bool hr args) (call_bool hn args).
+  Proof.
+    intros. unfold call_bool. apply one_arg_mono. intros a.
+    destruct a; try reflexivity; try apply ok_same.
+    - apply (ole_bind _ _ _ _ eq _ _ _ _ _ (hle_get_float hr hn H l)). intros x x' <-. apply ok_same.
+    - apply (ole_bind _ _ _ _ eq _ _ _ _ _ (hle_get_str hr hn H l)). intros x x' <-. apply ok_same.
+    - apply (ole_bind _ _ _ _ eq _ _ _ _ _ (hle_get_arr hr hn H l)). intros x x' <-. apply ok_same.
+  Qed.
+
+  Lemma call_float_mono : forall args, ole rle (call_float orc hr args) (call_float orc hn args).
+  Proof.
+    intros. unfold call_float. apply one_arg_mono. intros a.
+    destruct a; try reflexivity; try (apply ole_ok; apply rle_alloc_float; exact H); try apply ok_same.
+    apply (ole_bind _ _ _ _ eq _ _ _ _ _ (hle_get_str hr hn H l)). intros x x' <-.
+    destruct (parse_float orc x); [apply ole_ok; apply rle_alloc_float; exact H|reflexivity].
+  Qed.
+
+  Lemma call_int_mono : forall args, ole rle (call_int hr args) (call_int hn args).
+  Proof.
+    intros. unfold call_int. apply one_arg_mono. intros a.
+    destruct a; try reflexivity; try apply ranged_int_mono; try apply ok_same.
+    - apply (ole_bind _ _ _ _ eq _ _ _ _ _ (hle_get_float hr hn H l)). intros x x' <-. apply ranged_int_mono.
+    - apply (ole_bind _ _ _ _ eq _ _ _ _ _ (hle_get_str hr hn H l)). intros x x' <-.
+      destruct (parse_isize (trim x)); [apply ranged_int_mono|reflexivity].
+  Qed.
+
+  Lemma call_length_mono : forall args, ole rle (call_length hr args) (call_length hn args).
+  Proof.
+    intros. unfold call_length. apply one_arg_mono. intros a.
+    destruct a; try reflexivity.
+    - apply (ole_bind _ _ _ _ eq _ _ _ _ _ (hle_get_str hr hn H l)). intros x x' <-. apply ok_same.
+    - apply (ole_bind _ _ _ _ eq _ _ _ _ _ (hle_get_arr hr hn H l)). intros x x' <-. apply ok_same.
+  Qed.
+
+  Definition brle (x y : val * heap * text) : Prop := rle (fst x) (fst y) /\ snd x = snd y.
+
+  Lemma call_builtin_mono : forall b args, ole brle (call_builtin orc b hr args) (call_builtin orc b hn args).
+  Proof.
+    intros b args.
+    assert (forall (x y : outcome (val * heap)), ole rle x y ->
+              ole brle (do r <- x; Ok (r, [])) (do r <- y; Ok (r, []))) as W.
+    { intros x y Hxy. apply (ole_bind _ _ _ _ rle _ _ _ _ _ Hxy). intros r r' Hr. apply ole_ok. split; cbn [fst snd]; auto. }
+    destruct b; cbn [call_builtin];
+      first [ apply W; first [apply call_type_mono|apply call_string_mono|apply call_bool_mono
+                             |apply call_float_mono|apply call_int_mono|apply call_length_mono]
+            | idtac ].
+    apply (ole_bind _ _ _ _ eq _ _ _ _ _ (call_print_mono args)). intros t t' <-. apply ole_ok. split; cbn [fst snd].
+    - apply rle_same; exact H.
+    - reflexivity.
+  Qed.
+End BuiltinsMono.
+
+(** * The collection-free machine *)
+
+Section Machine.
+  Variable orc : oracle.
+  Variable prog : program.
+
+  (* VM.step, except: the two return instructions do not collect, Halt does not untrace *)
+  Definition step_ng (s : vm) : outcome stepres :=
+    match byte_at prog (v_ip s) with
+    | Some b =>
+        match opcode_of_byte b with
+        | Some OReturnValue =>
+            let s := upd_ip s (v_ip s + 1) in
+            do s' <- (do (result, s1) <- pop s; do s2 <- popframe s1; Ok (push result s2)); Ok (Continue s')
+        | Some OReturn =>
+            let s := upd_ip s (v_ip s + 1) in
+            do s' <- (do s1 <- popframe s; Ok (push VNull s1)); Ok (Continue s')
+        | Some OHalt => let s := upd_ip s (v_ip s + 1) in Ok (Halted (v_final s) s)
+        | _ => step orc prog s
+        end
+    | None => step orc prog s
+    end.
+
+  Fixpoint run_loop_ng (budget : nat) (s : vm) : outcome val * vm * nat :=
+    match budget with
+    | O => (OutOfFuel, s, O)
+    | S b =>
+        match step_ng s with
+        | Ok (Continue s') => run_loop_ng b s'
+        | Ok (Halted v s') => (Ok v, s', b)
+        | Err k => (Err k, s, b)
+        | Fault f => (Fault f, s, b)
+        | OutOfFuel => (OutOfFuel, s, b)
+        end
+    end.
+
+  (** ** States: equal except for the heap and the collector *)
+
+  Definition vsim (r n : vm) : Prop := exists hn gn, n = upd_heap r hn gn /\ hle (v_heap r) hn.
+
+  Definition prel {A} (a b : A * vm) : Prop := fst a = fst b /\ vsim (snd a) (snd b).
+
+  Definition srel (x y : stepres) : Prop :=
+    match x, y with
+    | Continue r, Continue n => vsim r n
+    | Halted v r, Halted w n => v = w /\ vsim r n
+    | _, _ => False
+    end.
+
+  Ltac vcbn := cbn [v_stack v_slen v_globals v_frames v_ip v_bp v_final v_heap v_gc v_out
+                    upd_stack upd_ip upd_heap upd_globals upd_final upd_out push fst snd] in *.
+
+  Lemma vsim_refl : forall s, vsim s s.
+  Proof. intros s. exists (v_heap s), (v_gc s). split; [destruct s; reflexivity|apply hle_refl]. Qed.
+
+  Lemma vsim_fields : forall r n, vsim r n ->
+    v_stack n = v_stack r /\ v_slen n = v_slen r /\ v_globals n = v_globals r /\ v_frames n = v_frames r /\
+    v_ip n = v_ip r /\ v_bp n = v_bp r /\ v_final n = v_final r /\ v_out n = v_out r /\ hle (v_heap r) (v_heap n).
+  Proof. intros r n [hn [gn [-> H]]]. vcbn. do 8 (split; [reflexivity|]). exact H. Qed.
+
+  Lemma vsim_upd_ip : forall r n ip, vsim r n -> vsim (upd_ip r ip) (upd_ip n ip).
+  Proof. intros r n ip [hn [gn [-> H]]]. exists hn, gn. split; [reflexivity|exact H]. Qed.
+  Lemma vsim_push : forall r n v, vsim r n -> vsim (push v r) (push v n).
+  Proof. intros r n v [hn [gn [-> H]]]. exists hn, gn. split; [reflexivity|exact H]. Qed.
+  Lemma vsim_upd_final : forall r n v, vsim r n -> vsim (upd_final r v) (upd_final n v).
+  Proof. intros r n v [hn [gn [-> H]]]. exists hn, gn. split; [reflexivity|exact H]. Qed.
+  Lemma vsim_upd_globals : forall r n gl, vsim r n -> vsim (upd_globals r gl) (upd_globals n gl).
+  Proof. intros r n v [hn [gn [-> H]]]. exists hn, gn. split; [reflexivity|exact H]. Qed.
+  Lemma vsim_upd_stack : forall r n st k, vsim r n -> vsim (upd_stack r st k) (upd_stack n st k).
+  Proof. intros r n st k [hn [gn [-> H]]]. exists hn, gn. split; [reflexivity|exact H]. Qed.
+  Lemma vsim_upd_out : forall r n o, vsim r n -> vsim (upd_out r o) (upd_out n o).
+  Proof. intros r n o [hn [gn [-> H]]]. exists hn, gn. split; [reflexivity|exact H]. Qed.
+  Lemma vsim_upd_heap : forall r n h h' g g', vsim r n -> hle h h' -> vsim (upd_heap r h g) (upd_heap n h' g').
+  Proof. intros r n h h' g g' [hn [gn [-> H]]] Hh. exists h', g'. split; [reflexivity|exact Hh]. Qed.
+
+  Lemma vsim_with_new : forall r n x y, vsim r n -> rle x y -> vsim (with_new r x) (with_new n y).
+  Proof.
+    intros r n [v h1] [w h2] V [E Hh]. cbn [fst snd] in *. subst w.
+    destruct (vsim_fields r n V) as [_ [_ [_ [_ [_ [_ [_ [_ Hrn]]]]]]]].
+    unfold with_new. rewrite (hle_next _ _ Hh), (hle_next _ _ Hrn).
+    destruct (Pos.eqb (next_loc h2) (next_loc (v_heap n))); apply vsim_upd_heap; assumption.
+  Qed.
+
+  Lemma read_u8_sim : forall r n, vsim r n -> ole prel (read_u8 prog r) (read_u8 prog n).
+  Proof.
+    intros r n V. destruct V as [hn [gn [-> H]]]. unfold read_u8. vcbn.
+    destruct (byte_at prog (v_ip r)); [|right; reflexivity].
+    apply ole_ok. split; [reflexivity|]. exists hn, gn. split; [reflexivity|exact H].
+  Qed.
+
+  Lemma read_u16_sim : forall r n, vsim r n -> ole prel (read_u16 prog r) (read_u16 prog n).
+  Proof.
+    intros r n V. destruct V as [hn [gn [-> H]]]. unfold read_u16. vcbn.
+    destruct (byte_at prog (v_ip r)); [|right; reflexivity].
+    destruct (byte_at prog (v_ip r + 1)); [|right; reflexivity].
+    apply ole_ok. split; [reflexivity|]. exists hn, gn. split; [reflexivity|exact H].
+  Qed.
+
+  Lemma pop_sim : forall r n, vsim r n -> ole prel (pop r) (pop n).
+  Proof.
+    intros r n V. destruct V as [hn [gn [-> H]]]. unfold pop. vcbn.
+    destruct (v_stack r); [right; reflexivity|].
+    apply ole_ok. split; [reflexivity|]. exists hn, gn. split; [reflexivity|exact H].
+  Qed.
+
+  Lemma pop_n_sim : forall k r n acc, vsim r n -> ole prel (pop_n k r acc) (pop_n k n acc).
+  Proof.
+    induction k as [|k IH]; intros r n acc V; cbn [pop_n].
+    - apply ole_ok. split; [reflexivity|exact V].
+    - apply (ole_bind _ _ _ _ prel prel _ _ _ _ (pop_sim r n V)).
+      intros [v r1] [w n1] [E V1]. cbn [fst snd] in *. subst w. apply IH. exact V1.
+  Qed.
+
+  Lemma get_local_sim : forall r n i, vsim r n -> get_local i n = get_local i r.
+  Proof. intros r n i [hn [gn [-> H]]]. reflexivity. Qed.
+
+  Lemma set_local_sim : forall r n i v, vsim r n -> ole vsim (set_local i v r) (set_local i v n).
+  Proof.
+    intros r n i v [hn [gn [-> H]]]. unfold set_local. vcbn.
+    destruct (v_bp r + i <? v_slen r); [|right; reflexivity].
+    apply ole_ok. exists hn, gn. split; [reflexivity|exact H].
+  Qed.
+
+  Lemma popframe_sim : forall r n, vsim r n -> ole vsim (popframe r) (popframe n).
+  Proof.
+    intros r n [hn [gn [-> H]]]. unfold popframe. vcbn.
+    destruct (v_frames r) as [|fr rest]; [right; reflexivity|].
+    destruct rest as [|cur rest']; [right; reflexivity|].
+    apply ole_ok. exists hn, gn. split; [reflexivity|exact H].
+  Qed.
+
+  Lemma pushframe_sim : forall r n ip bp, vsim r n -> ole vsim (pushframe ip bp r) (pushframe ip bp n).
+  Proof.
+    intros r n ip bp [hn [gn [-> H]]]. unfold pushframe. vcbn.
+    destruct (v_frames r) as [|cur rest]; [right; reflexivity|].
+    apply ole_ok. exists hn, gn. split; [reflexivity|exact H].
+  Qed.
+
+  Lemma cont_sim : forall x y, ole vsim x y ->
+    ole srel (do s' <- x; Ok (Continue s')) (do s' <- y; Ok (Continue s')).
+  Proof.
+    intros x y H. apply (ole_bind _ _ _ _ vsim srel _ _ _ _ H). intros a b V. apply ole_ok. exact V.
+  Qed.
+
+  (* the result of a value-level function pushed on the stack *)
+  Lemma push_new_sim : forall r n (x y : outcome (val * heap)), vsim r n -> ole rle x y ->
+    ole vsim (do a <- x; Ok (push (fst a) (with_new r a))) (do a <- y; Ok (push (fst a) (with_new n a))).
+  Proof.
+    intros r n x y V H. apply (ole_bind _ _ _ _ rle vsim _ _ _ _ H). intros a b Hab. apply ole_ok.
+    rewrite (proj1 Hab). apply vsim_push. apply vsim_with_new; assumption.
+  Qed.
+
+  Ltac bd16 V idx r1 n1 V1 :=
+    apply (ole_bind _ _ _ _ prel _ _ _ _ _ (read_u16_sim _ _ V));
+    let w := fresh "w" in let E := fresh "E" in
+    intros [idx r1] [w n1] [E V1]; cbn [fst snd] in E, V1; subst w.
+  Ltac bd8 V idx r1 n1 V1 :=
+    apply (ole_bind _ _ _ _ prel _ _ _ _ _ (read_u8_sim _ _ V));
+    let w := fresh "w" in let E := fresh "E" in
+    intros [idx r1] [w n1] [E V1]; cbn [fst snd] in E, V1; subst w.
+  Ltac bdpop V v r1 n1 V1 :=
+    apply (ole_bind _ _ _ _ prel _ _ _ _ _ (pop_sim _ _ V));
+    let w := fresh "w" in let E := fresh "E" in
+    intros [v r1] [w n1] [E V1]; cbn [fst snd] in E, V1; subst w.
+
+  Lemma heap_of : forall r n, vsim r n -> hle (v_heap r) (v_heap n).
+  Proof. intros r n V. exact (proj2 (proj2 (proj2 (proj2 (proj2 (proj2 (proj2 (proj2 (vsim_fields r n V))))))))). Qed.
+
+  Lemma c_const : forall r n, vsim r n ->
+    ole vsim
+      (do (idx, s1) <- read_u16 prog r;
+       do v <- get_const prog idx;
+       match v with
+       | VStr l => do t <- get_str (v_heap s1) l;
+                   let x := alloc_str (v_heap s1) t in Ok (push (fst x) (with_new s1 x))
+       | _ => Ok (push v s1)
+       end)
+      (do (idx, s1) <- read_u16 prog n;
+       do v <- get_const prog idx;
+       match v with
+       | VStr l => do t <- get_str (v_heap s1) l;
+                   let x := alloc_str (v_heap s1) t in Ok (push (fst x) (with_new s1 x))
+       | _ => Ok (push v s1)
+       end).
+  Proof.
+    intros r n V. bd16 V idx r1 n1 V1.
+    destruct (get_const prog idx) as [v| | |]; cbn [bind ole]; auto.
+    destruct v; try (apply ole_ok; apply vsim_push; exact V1).
+    apply (ole_bind _ _ _ _ eq _ _ _ _ _ (hle_get_str _ _ (heap_of _ _ V1) l)). intros t t' <-.
+    cbv zeta. apply ole_ok.
+    pose proof (rle_alloc_str _ _ t (heap_of _ _ V1)) as Hr. rewrite (proj1 Hr).
+    apply vsim_push. apply vsim_with_new; assumption.
+  Qed.
+
+  Lemma c_binary : forall m r n, vsim r n -> ole vsim (binary orc m r) (binary orc m n).
+  Proof.
+    intros m r n V. unfold binary. bdpop V rhs r1 n1 V1. bdpop V1 lhs r2 n2 V2.
+    apply push_new_sim; [exact V2|]. apply binop_mono. exact (heap_of _ _ V2).
+  Qed.
+
+  Lemma c_fused : forall m r n, vsim r n -> ole vsim (fused orc prog m r) (fused orc prog m n).
+  Proof.
+    intros m r n V. unfold fused. bd16 V li r1 n1 V1. rewrite (get_local_sim _ _ li V1).
+    destruct (get_local li r1) as [lhs| | |]; cbn [bind ole]; auto.
+    bd16 V1 ci r2 n2 V2.
+    destruct (get_const prog ci) as [rhs| | |]; cbn [bind ole]; auto.
+    apply push_new_sim; [exact V2|]. apply binop_mono. exact (heap_of _ _ V2).
+  Qed.
+
+  Lemma c_index_get : forall r n lhs index, vsim r n -> ole vsim (index_get r lhs index) (index_get n lhs index).
+  Proof.
+    intros r n lhs index V. unfold index_get. destruct index; cbn [ole]; auto.
+    destruct lhs; cbn [ole]; auto.
+    - apply (ole_bind _ _ _ _ eq _ _ _ _ _ (hle_get_str _ _ (heap_of _ _ V) l)). intros t t' <-.
+      destruct (norm_index z (zlength t)) as [i| | |]; cbn [bind ole]; auto.
+      destruct (nth_error t (Z.to_nat i)) as [c|]; cbn [ole]; auto.
+      cbv zeta. apply ole_ok. pose proof (rle_alloc_str _ _ [c] (heap_of _ _ V)) as Hr. rewrite (proj1 Hr).
+      apply vsim_push. apply vsim_with_new; assumption.
+    - apply (ole_bind _ _ _ _ eq _ _ _ _ _ (hle_get_arr _ _ (heap_of _ _ V) l)). intros vs vs' <-.
+      destruct (norm_index z (zlength vs)) as [i| | |]; cbn [bind ole]; auto.
+      destruct (nth_error vs (Z.to_nat i)) as [c|]; cbn [ole]; auto.
+      apply ole_ok. apply vsim_push. exact V.
+  Qed.
+
+  Lemma c_index_set : forall r n lhs index value, vsim r n ->
+    ole vsim (index_set r lhs index value) (index_set n lhs index value).
+  Proof.
+    intros r n lhs index value V. unfold index_set. destruct index; cbn [ole]; auto.
+    pose proof (vsim_fields r n V) as [_ [_ [_ [_ [_ [_ [_ [_ Hh]]]]]]]].
+    destruct lhs; cbn [ole]; auto.
+    - apply (ole_bind _ _ _ _ eq _ _ _ _ _ (hle_get_str _ _ Hh l)). intros t t' <-.
+      destruct (norm_index z (zlength t)) as [i| | |]; cbn [bind ole]; auto.
+      destruct value; cbn [ole]; auto.
+      apply (ole_bind _ _ _ _ eq _ _ _ _ _ (hle_get_str _ _ Hh l0)). intros rp rp' <-.
+      apply (ole_bind _ _ _ _ hle _ _ _ _ _ (hle_set _ _ Hh l _)). intros h1 h2 H12.
+      apply ole_ok. apply vsim_push. destruct V as [hn [gn [-> H]]]. vcbn. exists h2, gn. split; [reflexivity|exact H12].
+    - apply (ole_bind _ _ _ _ eq _ _ _ _ _ (hle_get_arr _ _ Hh l)). intros vs vs' <-.
+      destruct (norm_index z (zlength vs)) as [i| | |]; cbn [bind ole]; auto.
+      apply (ole_bind _ _ _ _ hle _ _ _ _ _ (hle_set _ _ Hh l _)). intros h1 h2 H12.
+      apply ole_ok. apply vsim_push. destruct V as [hn [gn [-> H]]]. vcbn. exists h2, gn. split; [reflexivity|exact H12].
+  Qed.
+
+  (** ** THE COLLECTION LEMMA: a collection only flags boxes dead *)
+
+  Lemma gc_run_hle : forall h g roots g' h', GCInv h g -> gc_run h g roots = Ok (g', h') -> hle h' h.
+  Proof.
+    intros h g roots g' h' Hinv Hrun.
+    pose proof (run_next_loc h g roots g' h' Hinv Hrun) as Hnx.
+    destruct (run_char h g roots g' h' Hinv Hrun) as [bits [_ [_ [_ [_ [_ [Hna [Hdead Hsame]]]]]]]].
+    constructor; [exact Hnx|exact Hna|].
+    intros l Ha. symmetry. apply Hsame. intros v Hv Heq. rewrite (Hdead v l Hv Heq) in Ha. discriminate Ha.
+  Qed.
+
+  (* what a collection does to the relation: the state after it is still below the collection-free state *)
+  Theorem collect_hle : forall r n extra r', SInv prog r -> vsim r n -> collect prog r extra = Ok r' -> vsim r' n.
+  Proof.
+    intros r n extra r' HS [hn [gn [-> H]]] E. unfold collect in E.
+    destruct (gc_run (v_heap r) (v_gc r) (roots prog r extra)) as [[g' h']| | |] eqn:Er; cbn [bind] in E; try discriminate E.
+    inversion E; subst r'. exists hn, gn. split; [reflexivity|]. vcbn.
+    apply (hle_trans _ (v_heap r)); [|exact H].
+    exact (gc_run_hle _ _ _ _ _ (hi_gc _ _ (si_heap _ _ HS)) Er).
+  Qed.
+
+  Lemma c_return : forall r n, SInv prog r -> vsim r n ->
+    ole vsim (do s1 <- popframe r; do s2 <- collect prog s1 [v_final s1]; Ok (push VNull s2))
+             (do s1 <- popframe n; Ok (push VNull s1)).
+  Proof.
+    intros r n HS V.
+    pose proof (popframe_sim r n V) as Hp. pose proof (popframe_inv prog r) as Hinv.
+    destruct (popframe r) as [r1| | |]; cbn [ole bind] in *; auto; try (rewrite Hp; reflexivity).
+    - destruct Hp as [n1 [-> V1]]. cbn [bind].
+      destruct (Hinv r1 HS eq_refl) as [H1 _].
+      assert (oks (v_heap r1) [v_final r1]) as Hex.
+      { intros v [<-|[]]. apply (si_final _ _ H1). }
+      destruct (collect_ok prog r1 _ H1 Hex) as [r2 E2]. rewrite E2. cbn [bind ole].
+      eexists. split; [reflexivity|]. apply vsim_push. exact (collect_hle r1 n1 _ r2 H1 V1 E2).
+    - destruct Hp as [Hp|Hp]; [left; exact Hp|right; rewrite Hp; reflexivity].
+  Qed.
+
+  Lemma c_return_value : forall r n, SInv prog r -> vsim r n ->
+    ole vsim (do (result, s1) <- pop r; do s2 <- popframe s1;
+              do s3 <- collect prog s2 [v_final s2; result]; Ok (push result s3))
+             (do (result, s1) <- pop n; do s2 <- popframe s1; Ok (push result s2)).
+  Proof.
+    intros r n HS V.
+    pose proof (pop_sim r n V) as Hp. pose proof (pop_inv prog r) as Hinv0.
+    destruct (pop r) as [[result r1]| | |]; cbn [ole bind] in *; auto; try (rewrite Hp; reflexivity).
+    2:{ destruct Hp as [Hp|Hp]; [left; exact Hp|right; rewrite Hp; reflexivity]. }
+    destruct Hp as [[w n1] [-> [E V1]]]. cbn [fst snd bind] in *. subst w.
+    destruct (Hinv0 result r1 HS eq_refl) as [H1 [Hh1 Hres]].
+    pose proof (popframe_sim r1 n1 V1) as Hp. pose proof (popframe_inv prog r1) as Hinv.
+    destruct (popframe r1) as [r2| | |]; cbn [ole bind] in *; auto; try (rewrite Hp; reflexivity).
+    2:{ destruct Hp as [Hp|Hp]; [left; exact Hp|right; rewrite Hp; reflexivity]. }
+    destruct Hp as [n2 [-> V2]]. cbn [bind].
+    destruct (Hinv r2 H1 eq_refl) as [H2 [Hh2 _]].
+    assert (oks (v_heap r2) [v_final r2; result]) as Hex.
+    { intros v [<-|[<-|[]]]; [apply (si_final _ _ H2)|congruence]. }
+    destruct (collect_ok prog r2 _ H2 Hex) as [r3 E3]. rewrite E3. cbn [bind ole].
+    eexists. split; [reflexivity|]. apply vsim_push. exact (collect_hle r2 n2 _ r3 H2 V2 E3).
+  Qed.
+
+  Lemma c_halt : forall r n, SInv prog r -> vsim r n ->
+    ole srel (do g' <- untrace (v_heap r) (v_gc r) (v_final r); Ok (Halted (v_final r) (upd_heap r (v_heap r) g')))
+             (Ok (Halted (v_final n) n)).
+  Proof.
+    intros r n H V.
+    assert (Hok : roots_ok (v_heap r) [v_final r]).
+    { intros v [<-|[]]. apply (si_final _ _ H). }
+    destruct (untrace_strong _ _ (v_final r) (hi_gc _ _ (si_heap _ _ H))
+                (oks_roots_managed _ _ _ (si_heap _ _ H) Hok) Hok) as [g' [E _]].
+    rewrite E. cbn [bind ole]. eexists. split; [reflexivity|]. cbn [srel].
+    destruct V as [hn [gn [-> Hh]]]. vcbn. split; [reflexivity|]. exists hn, gn. split; [reflexivity|exact Hh].
+  Qed.
+
+  Lemma c_call : forall r n, vsim r n ->
+    ole vsim
+     (do (argc, s1) <- read_u8 prog r;
+      do (f, s2) <- pop s1;
+      match f with
+      | VFun ip n0 =>
+          if n0 <? argc then Err EArgumentError
+          else if (MAX_STACK_SIZE <? v_slen s2 + n0) || (MAX_FRAMES <=? zlength (v_frames s2)) then Err ETypeError
+          else if v_slen s2 <? argc then Fault FCallUnderflow
+          else pushframe ip (v_slen s2 - argc)
+                 (upd_stack s2 (repeat_val VNull (Z.to_nat (n0 - argc)) ++ v_stack s2) (v_slen s2 + (n0 - argc)))
+      | _ => Err ETypeError
+      end)
+     (do (argc, s1) <- read_u8 prog n;
+      do (f, s2) <- pop s1;
+      match f with
+      | VFun ip n0 =>
+          if n0 <? argc then Err EArgumentError
+          else if (MAX_STACK_SIZE <? v_slen s2 + n0) || (MAX_FRAMES <=? zlength (v_frames s2)) then Err ETypeError
+          else if v_slen s2 <? argc then Fault FCallUnderflow
+          else pushframe ip (v_slen s2 - argc)
+                 (upd_stack s2 (repeat_val VNull (Z.to_nat (n0 - argc)) ++ v_stack s2) (v_slen s2 + (n0 - argc)))
+      | _ => Err ETypeError
+      end).
+  Proof.
+    intros r n V. bd8 V argc r1 n1 V1. bdpop V1 f r2 n2 V2.
+    destruct f; cbn [ole]; auto.
+    destruct (vsim_fields r2 n2 V2) as [E1 [E2 [_ [E4 _]]]]. rewrite E1, E2, E4.
+    destruct (n0 <? argc); cbn [ole]; auto.
+    destruct ((MAX_STACK_SIZE <? v_slen r2 + n0) || (MAX_FRAMES <=? zlength (v_frames r2))); cbn [ole]; auto.
+    destruct (v_slen r2 <? argc); cbn [ole]; auto.
+    apply pushframe_sim. apply vsim_upd_stack. exact V2.
+  Qed.
+
+  Lemma c_builtin : forall r n, vsim r n ->
+    ole vsim
+     (do (bb, s1) <- read_u8 prog r;
+      do (argc, s2) <- read_u8 prog s1;
+      do (args, s3) <- pop_n (Z.to_nat argc) s2 [];
+      match builtin_of_byte bb with
+      | None => Fault FBadBuiltin
+      | Some bi =>
+          do (x, printed) <- call_builtin orc bi (v_heap s3) args;
+          let s4 := with_new s3 x in Ok (push (fst x) (upd_out s4 (v_out s4 ++ printed)))
+      end)
+     (do (bb, s1) <- read_u8 prog n;
+      do (argc, s2) <- read_u8 prog s1;
+      do (args, s3) <- pop_n (Z.to_nat argc) s2 [];
+      match builtin_of_byte bb with
+      | None => Fault FBadBuiltin
+      | Some bi =>
+          do (x, printed) <- call_builtin orc bi (v_heap s3) args;
+          let s4 := with_new s3 x in Ok (push (fst x) (upd_out s4 (v_out s4 ++ printed)))
+      end).
+  Proof.
+    intros r n V. bd8 V bb r1 n1 V1. bd8 V1 argc r2 n2 V2.
+    apply (ole_bind _ _ _ _ prel _ _ _ _ _ (pop_n_sim _ _ _ [] V2)).
+    intros [args r3] [w n3] [E V3]. cbn [fst snd] in E, V3. subst w.
+    destruct (builtin_of_byte bb) as [bi|]; [|right; reflexivity].
+    apply (ole_bind _ _ _ _ (brle) _ _ _ _ _ (call_builtin_mono orc _ _ (heap_of _ _ V3) bi args)).
+    intros [x pr] [y pr'] [Hxy Epr]. cbn [fst snd] in Hxy, Epr. subst pr'. cbv zeta.
+    apply ole_ok. rewrite (proj1 Hxy). apply vsim_push.
+    pose proof (vsim_with_new _ _ _ _ V3 Hxy) as V4.
+    destruct (vsim_fields _ _ V4) as [_ [_ [_ [_ [_ [_ [_ [Eo _]]]]]]]]. rewrite Eo.
+    apply vsim_upd_out. exact V4.
+  Qed.
+
+  (** ** One instruction in lockstep *)
+
+  Theorem gc_lockstep_s : forall r n, SInv prog r -> vsim r n -> ole srel (step orc prog r) (step_ng n).
+  Proof.
+    intros r0 n0 H0 V0.
+    destruct (vsim_fields r0 n0 V0) as [_ [_ [_ [_ [Eip _]]]]].
+    unfold step_ng, step. rewrite Eip.
+    destruct (byte_at prog (v_ip r0)) as [b|] eqn:Eb; [|right; reflexivity].
+    destruct (opcode_of_byte b) as [op|] eqn:Eo; [|right; reflexivity].
+    pose proof (vsim_upd_ip r0 n0 (v_ip r0 + 1) V0) as V.
+    pose proof (sinv_upd_ip prog r0 (v_ip r0 + 1) H0) as HS.
+    generalize dependent (upd_ip r0 (v_ip r0 + 1)). generalize dependent (upd_ip n0 (v_ip r0 + 1)).
+    intros n r V HS.
+    destruct op; cbv beta zeta iota.
+    all: try solve [ apply c_halt; assumption ].
+    all: apply cont_sim.
+    all: try solve [ apply c_return; assumption | apply c_return_value; assumption ].
+      all: try (first [ apply c_const | apply c_call | apply c_builtin ]; exact V).
+      all: try (apply ole_ok; apply vsim_push; exact V).
+      all: try solve [ (* SetGlobal *) bd16 V idx r1 n1 V1; bdpop V1 v r2 n2 V2; apply ole_ok;
+                       destruct (vsim_fields _ _ V2) as [_ [_ [Eg _]]]; rewrite Eg; apply vsim_upd_globals; exact V2 ].
+      all: try solve [ (* GetGlobal *) bd16 V idx r1 n1 V1; apply ole_ok;
+                       destruct (vsim_fields _ _ V1) as [_ [_ [Eg _]]]; rewrite Eg; apply vsim_push; exact V1 ].
+      all: try solve [ (* SetLocal *) bd16 V idx r1 n1 V1; bdpop V1 v r2 n2 V2; apply set_local_sim; exact V2 ].
+      all: try solve [ (* GetLocal *) bd16 V idx r1 n1 V1; rewrite (get_local_sim _ _ idx V1);
+                       destruct (get_local idx r1) as [v| | |]; cbn [bind ole]; auto;
+                       eexists; split; [reflexivity|]; apply vsim_push; exact V1 ].
+      all: try solve [ (* Jump *) bd16 V pos r1 n1 V1; apply ole_ok; apply vsim_upd_ip; exact V1 ].
+      all: try solve [ (* JumpIfFalse *) bdpop V c r1 n1 V1; destruct c; cbn [ole]; auto;
+                       bd16 V1 pos r2 n2 V2; apply ole_ok;
+                       match goal with |- vsim (if ?b then _ else _) _ => destruct b end;
+                       [exact V2|apply vsim_upd_ip; exact V2] ].
+      all: try solve [ (* Pop *) bdpop V v r1 n1 V1; apply ole_ok; apply vsim_upd_final; exact V1 ].
+      all: try solve [ (* Not *) bdpop V v r1 n1 V1; destruct (lognot v) as [x| | |]; cbn [bind ole]; auto;
+                       eexists; split; [reflexivity|]; apply vsim_push; exact V1 ].
+      all: try solve [ (* Negate *) bdpop V v r1 n1 V1; apply push_new_sim; [exact V1|]; apply negate_mono;
+                       exact (heap_of _ _ V1) ].
+      all: try solve [ (* Array *) bd16 V k r1 n1 V1;
+                       apply (ole_bind _ _ _ _ prel _ _ _ _ _ (pop_n_sim _ _ _ [] V1));
+                       intros [vs r2] [w n2] [E V2]; cbn [fst snd] in E, V2; subst w;
+                       destruct (hle_alloc _ _ (heap_of _ _ V2) (OArr vs)) as [A B];
+                       destruct (h_alloc (v_heap r2) (OArr vs)) as [l h1]; destruct (h_alloc (v_heap n2) (OArr vs)) as [l' h2];
+                       cbn [fst snd] in A, B; subst l'; apply ole_ok; apply vsim_push; apply vsim_upd_heap; assumption ].
+      all: try solve [ (* IndexGet *) bdpop V ix r1 n1 V1; bdpop V1 lhs r2 n2 V2; apply c_index_get; exact V2 ].
+      all: try solve [ (* IndexSet *) bdpop V vv r1 n1 V1; bdpop V1 ix r2 n2 V2; bdpop V2 lhs r3 n3 V3;
+                       apply c_index_set; exact V3 ].
+      all: try solve [ apply c_binary; exact V | apply c_fused; exact V ].
+  Qed.
+
+  (** ** The collection-free machine never lowers the allocation counter *)
+
+  Definition hp (h0 : heap) (r : outcome vm) : Prop :=
+    match r with Ok s' => n_alloc h0 <= n_alloc (v_heap s') | _ => True end.
+  Definition hpp {A} (h0 : heap) (r : outcome (A * vm)) : Prop :=
+    match r with Ok x => v_heap (snd x) = h0 | _ => True end.
+
+  Lemma hp_bind_p : forall A h0 (e : outcome (A * vm)) (k : A * vm -> outcome vm),
+    hpp h0 e -> (forall a s', v_heap s' = h0 -> hp h0 (k (a, s'))) -> hp h0 (bind e k).
+  Proof. intros A h0 e k He Hk. destruct e as [[a s']| | |]; cbn [bind hp hpp snd] in *; auto. Qed.
+
+  Lemma hp_bind_v : forall h0 (e : outcome vm) (k : vm -> outcome vm),
+    (forall s', e = Ok s' -> v_heap s' = h0) -> (forall s', v_heap s' = h0 -> hp h0 (k s')) -> hp h0 (bind e k).
+  Proof. intros h0 e k He Hk. destruct e as [s'| | |]; cbn [bind hp] in *; auto. Qed.
+
+  Lemma hp_same : forall h0 s', v_heap s' = h0 -> hp h0 (Ok s').
+  Proof. intros h0 s' <-. cbn [hp]. lia. Qed.
+
+  Lemma hpp_read_u8 : forall s, hpp (v_heap s) (read_u8 prog s).
+  Proof. intros s. unfold read_u8. destruct (byte_at prog (v_ip s)); cbn [hpp snd]; auto. Qed.
+  Lemma hpp_read_u16 : forall s, hpp (v_heap s) (read_u16 prog s).
+  Proof.
+    intros s. unfold read_u16. destruct (byte_at prog (v_ip s)); cbn [hpp]; auto.
+    destruct (byte_at prog (v_ip s + 1)); cbn [hpp snd]; auto.
+  Qed.
+  Lemma hpp_pop : forall s, hpp (v_heap s) (pop s).
+  Proof. intros s. unfold pop. destruct (v_stack s); cbn [hpp snd]; auto. Qed.
+  Lemma hpp_pop_n : forall k s acc, hpp (v_heap s) (pop_n k s acc).
+  Proof.
+    induction k as [|k IH]; intros s acc; cbn [pop_n]; [reflexivity|].
+    pose proof (hpp_pop s) as Hp. destruct (pop s) as [[v s1]| | |]; cbn [bind hpp snd] in *; auto.
+    rewrite <- Hp. apply IH.
+  Qed.
+  Lemma popframe_heap : forall s s', popframe s = Ok s' -> v_heap s' = v_heap s.
+  Proof.
+    intros s s' E. unfold popframe in E. destruct (v_frames s) as [|fr [|cur rest]]; try discriminate E.
+    inversion E. reflexivity.
+  Qed.
+  Lemma pushframe_heap : forall ip bp s s', pushframe ip bp s = Ok s' -> v_heap s' = v_heap s.
+  Proof.
+    intros ip bp s s' E. unfold pushframe in E. destruct (v_frames s); try discriminate E. inversion E. reflexivity.
+  Qed.
+  Lemma set_local_heap : forall i v s s', set_local i v s = Ok s' -> v_heap s' = v_heap s.
+  Proof.
+    intros i v s s' E. unfold set_local in E. destruct (v_bp s + i <? v_slen s); try discriminate E. inversion E. reflexivity.
+  Qed.
+
+  Lemma hp_with_new : forall s (x : outcome (val * heap)),
+    match x with Ok a => n_alloc (v_heap s) <= n_alloc (snd a) | _ => True end ->
+    hp (v_heap s) (do a <- x; Ok (push (fst a) (with_new s a))).
+  Proof.
+    intros s x Hx. destruct x as [[v h']| | |]; cbn [bind hp] in *; auto.
+    unfold with_new. destruct (Pos.eqb _ _); exact Hx.
+  Qed.
+
+  Ltac h16 idx s1 E1 := apply hp_bind_p; [apply hpp_read_u16|]; intros idx s1 E1.
+  Ltac h8 idx s1 E1 := apply hp_bind_p; [apply hpp_read_u8|]; intros idx s1 E1.
+  Ltac hpop H v s1 E1 := apply hp_bind_p; [rewrite <- H; apply hpp_pop|]; intros v s1 E1.
+
+  Lemma hp_binary : forall m s, hp (v_heap s) (binary orc m s).
+  Proof.
+    intros m s. unfold binary. apply hp_bind_p; [apply hpp_pop|]. intros rhs s1 E1.
+    hpop E1 lhs s2 E2. rewrite <- E2. apply hp_with_new.
+    exact (CompileCorrectH3.binop_grows orc m (v_heap s2) lhs rhs).
+  Qed.
+
+  Lemma hp_fused : forall m s, hp (v_heap s) (fused orc prog m s).
+  Proof.
+    intros m s. unfold fused. h16 li s1 E1.
+    destruct (get_local li s1) as [lhs| | |]; cbn [bind hp]; auto.
+    apply hp_bind_p; [rewrite <- E1; apply hpp_read_u16|]. intros ci s2 E2.
+    destruct (get_const prog ci) as [rhs| | |]; cbn [bind hp]; auto.
+    rewrite <- E2. apply hp_with_new. exact (CompileCorrectH3.binop_grows orc m (v_heap s2) lhs rhs).
+  Qed.
+
+  Lemma hp_index_get : forall s lhs index, hp (v_heap s) (index_get s lhs index).
+  Proof.
+    intros s lhs index. unfold index_get. destruct index; cbn [hp]; auto. destruct lhs; cbn [hp]; auto.
+    - destruct (get_str (v_heap s) l) as [t| | |]; cbn [bind hp]; auto.
+      destruct (norm_index z (zlength t)) as [i| | |]; cbn [bind hp]; auto.
+      destruct (nth_error t (Z.to_nat i)); cbn [hp]; auto.
+      unfold with_new, alloc_str. cbn [h_alloc fst snd next_loc].
+      destruct (Pos.eqb _ _); cbn [push upd_stack upd_heap v_heap n_alloc]; lia.
+    - destruct (get_arr (v_heap s) l) as [t| | |]; cbn [bind hp]; auto.
+      destruct (norm_index z (zlength t)) as [i| | |]; cbn [bind hp]; auto.
+      destruct (nth_error t (Z.to_nat i)); cbn [hp]; auto. cbn [push upd_stack v_heap]. lia.
+  Qed.
+
+  Lemma h_set_nalloc : forall h l o h', h_set h l o = Ok h' -> n_alloc h' = n_alloc h.
+  Proof.
+    intros h l o h' E. unfold h_set in E. destruct (PM.find l (cells h)) as [[[|] x]|]; try discriminate E.
+    inversion E. reflexivity.
+  Qed.
+
+  Lemma hp_index_set : forall s lhs index value, hp (v_heap s) (index_set s lhs index value).
+  Proof.
+    intros s lhs index value. unfold index_set. destruct index; cbn [hp]; auto. destruct lhs; cbn [hp]; auto.
+    - destruct (get_str (v_heap s) l) as [t| | |]; cbn [bind hp]; auto.
+      destruct (norm_index z (zlength t)) as [i| | |]; cbn [bind hp]; auto.
+      destruct value; cbn [hp]; auto.
+      destruct (get_str (v_heap s) l0) as [rp| | |]; cbn [bind hp]; auto.
+      match goal with |- hp _ (do h' <- h_set ?a ?b ?c; _) =>
+        pose proof (h_set_nalloc a b c) as Hs; destruct (h_set a b c); cbn [bind hp]; auto end.
+      cbn [push upd_stack upd_heap v_heap]. rewrite (Hs _ eq_refl). lia.
+    - destruct (get_arr (v_heap s) l) as [t| | |]; cbn [bind hp]; auto.
+      destruct (norm_index z (zlength t)) as [i| | |]; cbn [bind hp]; auto.
+      match goal with |- hp _ (do h' <- h_set ?a ?b ?c; _) =>
+        pose proof (h_set_nalloc a b c) as Hs; destruct (h_set a b c); cbn [bind hp]; auto end.
+      cbn [push upd_stack upd_heap v_heap]. rewrite (Hs _ eq_refl). lia.
+  Qed.
+
+  Theorem ng_alloc_mono : forall n n', step_ng n = Ok (Continue n') -> n_alloc (v_heap n) <= n_alloc (v_heap n').
+  Proof.
+    intros s0 n' E.
+    assert (forall x : outcome vm, hp (v_heap s0) x -> (do s' <- x; Ok (Continue s')) = Ok (Continue n') ->
+              n_alloc (v_heap s0) <= n_alloc (v_heap n')) as K.
+    { intros x Hx Ex. destruct x; cbn [bind] in Ex; try discriminate Ex. inversion Ex; subst. exact Hx. }
+    unfold step_ng, step in E.
+    destruct (byte_at prog (v_ip s0)) as [b|]; [|discriminate E].
+    destruct (opcode_of_byte b) as [op|]; [|discriminate E].
+    change (v_heap s0) with (v_heap (upd_ip s0 (v_ip s0 + 1))) in K |- *.
+    generalize dependent (upd_ip s0 (v_ip s0 + 1)). intros s E K.
+    destruct op; cbv beta zeta iota in E; try discriminate E; refine (K _ _ E); clear E K.
+    all: try solve [ apply hp_binary | apply hp_fused ].
+    all: try solve [ apply hp_same; reflexivity ].
+    all: try solve [ (* Const *) h16 idx s1 E1; destruct (get_const prog idx) as [v| | |]; cbn [bind hp]; auto;
+                     destruct v; try (apply hp_same; exact E1);
+                     destruct (get_str (v_heap s1) l) as [t| | |]; cbn [bind hp]; auto;
+                     unfold with_new, alloc_str; cbn [h_alloc fst snd next_loc]; rewrite <- E1;
+                     destruct (Pos.eqb _ _); cbn [push upd_stack upd_heap v_heap n_alloc]; lia ].
+    all: try solve [ (* Set/GetGlobal, Jump *) h16 idx s1 E1; try (hpop E1 v s2 E2); apply hp_same; assumption ].
+    all: try solve [ (* SetLocal *) h16 idx s1 E1; hpop E1 v s2 E2;
+                     pose proof (set_local_heap idx v s2) as Hs; destruct (set_local idx v s2); cbn [hp]; auto;
+                     rewrite (Hs _ eq_refl), E2; lia ].
+    all: try solve [ (* GetLocal *) h16 idx s1 E1; destruct (get_local idx s1); cbn [bind hp]; auto; rewrite E1; lia ].
+    all: try solve [ (* JumpIfFalse *) apply hp_bind_p; [apply hpp_pop|]; intros c s1 E1; destruct c; cbn [hp]; auto;
+                     apply hp_bind_p; [rewrite <- E1; apply hpp_read_u16|]; intros pos s2 E2;
+                     match goal with |- hp _ (Ok (if ?b then _ else _)) => destruct b end; apply hp_same; assumption ].
+    all: try solve [ (* Pop *) apply hp_bind_p; [apply hpp_pop|]; intros v s1 E1; apply hp_same; exact E1 ].
+    all: try solve [ (* Not *) apply hp_bind_p; [apply hpp_pop|]; intros v s1 E1;
+                     destruct (lognot v); cbn [bind hp]; auto; rewrite E1; lia ].
+    all: try solve [ (* Negate *) apply hp_bind_p; [apply hpp_pop|]; intros v s1 E1; rewrite <- E1; apply hp_with_new;
+                     exact (CompileCorrectH3.negate_grows (v_heap s1) v) ].
+    all: try solve [ (* Call *) h8 argc s1 E1; hpop E1 f s2 E2; destruct f; cbn [hp]; auto;
+                     repeat match goal with |- hp _ (if ?c then _ else _) => destruct c; cbn [hp]; auto end;
+                     match goal with |- hp _ ?e => pose proof (pushframe_heap ip _ _) as Hs; destruct e eqn:Ee; cbn [hp]; auto end ].
+    all: try solve [ (* Not *) apply hp_bind_p; [apply hpp_pop|]; intros v s1 E1;
+                     destruct (lognot v); cbn [bind hp]; auto; cbn [push upd_stack v_heap]; rewrite E1; lia ].
+    all: try solve [ (* Return *) apply hp_bind_v; [apply popframe_heap|]; intros s1 E1; apply hp_same; exact E1 ].
+    all: try solve [ (* ReturnValue *) apply hp_bind_p; [apply hpp_pop|]; intros v s1 E1;
+                     apply hp_bind_v; [intros s2 E2; rewrite (popframe_heap _ _ E2); exact E1|];
+                     intros s2 E2; apply hp_same; exact E2 ].
+    all: try solve [ (* Call *) h8 argc s1 E1; hpop E1 f s2 E2; destruct f; cbn [hp]; auto;
+                     repeat match goal with |- hp _ (if ?c then _ else _) => destruct c; cbn [hp]; auto end;
+                     match goal with |- hp _ (pushframe ?a ?b ?c) =>
+                       pose proof (pushframe_heap a b c) as Hs; destruct (pushframe a b c); cbn [hp]; auto;
+                       rewrite (Hs _ eq_refl); cbn [upd_stack v_heap]; rewrite E2; lia end ].
+    all: try solve [ (* Builtin *) h8 bb s1 E1; apply hp_bind_p; [rewrite <- E1; apply hpp_read_u8|]; intros argc s2 E2;
+                     apply hp_bind_p; [rewrite <- E2; apply hpp_pop_n|]; intros args s3 E3;
+                     destruct (builtin_of_byte bb) as [bi|]; cbn [hp]; auto;
+                     pose proof (CompileCorrectH3.call_builtin_grows orc bi (v_heap s3) args) as Hg;
+                     destruct (call_builtin orc bi (v_heap s3) args) as [[[v h'] pr]| | |]; cbn [bind hp fst snd] in *; auto;
+                     unfold with_new; rewrite <- E3; destruct (Pos.eqb _ _); exact Hg ].
+    all: try solve [ (* GetLocal *) h16 idx s1 E1; destruct (get_local idx s1); cbn [bind hp]; auto;
+                     cbn [push upd_stack v_heap]; rewrite E1; lia ].
+    all: try solve [ (* Array *) h16 k s1 E1; apply hp_bind_p; [rewrite <- E1; apply hpp_pop_n|]; intros vs s2 E2;
+                     cbn [h_alloc hp push upd_stack upd_heap v_heap n_alloc]; rewrite E2; lia ].
+    all: try solve [ (* IndexGet *) apply hp_bind_p; [apply hpp_pop|]; intros ix s1 E1; hpop E1 lhs s2 E2;
+                     rewrite <- E2; apply hp_index_get ].
+    all: try solve [ (* IndexSet *) apply hp_bind_p; [apply hpp_pop|]; intros vv s1 E1; hpop E1 ix s2 E2; hpop E2 lhs s3 E3;
+                     rewrite <- E3; apply hp_index_set ].
+  Qed.
+
+  (** ** Lockstep, in symmetric form *)
+
+  Definition same_step (x y : outcome stepres) : Prop :=
+    match x, y with
+    | Ok (Continue r'), Ok (Continue n') => vsim r' n'
+    | Ok (Halted v r'), Ok (Halted w n') => v = w /\ vsim r' n'
+    | Err k, Err k' => k = k'
+    | Fault f, Fault f' => f = f'
+    | OutOfFuel, OutOfFuel => True
+    | _, _ => False
+    end.
+
+  Lemma vsim_nalloc : forall r n, vsim r n -> n_alloc (v_heap r) = n_alloc (v_heap n).
+  Proof. intros r n V. exact (hle_nalloc _ _ (heap_of r n V)). Qed.
+
+  (* GC_UNOBSERVABLE, one instruction: under the collector invariant and the address-space bound the
+     real machine and the collection-free machine do the same thing *)
+  Theorem gc_lockstep : forall r n, VMInv prog r -> addr_bounded r -> vsim r n ->
+    same_step (step orc prog r) (step_ng n).
+  Proof.
+    intros r n HI Hb V.
+    pose proof (gc_lockstep_s r n (proj1 (vminv_sinv prog r) HI) V) as L.
+    pose proof (vm_no_heap_fault orc prog r HI Hb) as NF.
+    destruct (step orc prog r) as [[r'|v r']|k|f|]; cbn [ole same_step] in *.
+    - destruct L as [[n'|w n'] [-> S]]; cbn [srel] in S; [exact S|contradiction].
+    - destruct L as [[n'|w n'] [-> S]]; cbn [srel] in S; [contradiction|exact S].
+    - rewrite L. reflexivity.
+    - destruct L as [-> | ->]; [|reflexivity]. destruct (NF _ eq_refl) as [N _]. exfalso. apply N. reflexivity.
+    - rewrite L. exact I.
+  Qed.
+
+  (** ** Runs *)
+
+  Fixpoint steps_ng (k : nat) (s : vm) : outcome vm :=
+    match k with
+    | O => Ok s
+    | S k' =>
+        match step_ng s with
+        | Ok (Continue s1) => steps_ng k' s1
+        | Ok (Halted _ _) => Fault FUnwrap
+        | Err e => Err e
+        | Fault f => Fault f
+        | OutOfFuel => OutOfFuel
+        end
+    end.
+
+  Lemma steps_ng_mono : forall k n n', steps_ng k n = Ok n' -> n_alloc (v_heap n) <= n_alloc (v_heap n').
+  Proof.
+    induction k as [|k IH]; intros n n' E; cbn [steps_ng] in E.
+    - inversion E. lia.
+    - destruct (step_ng n) as [[n1|v n1]| | |] eqn:E1; try discriminate E.
+      pose proof (ng_alloc_mono n n1 E1). pose proof (IH n1 n' E). lia.
+  Qed.
+
+  (* GC_UNOBSERVABLE for runs: whatever the collection-free machine reaches in k instructions, within
+     the address space, the real machine reaches in k instructions, in a state that differs only by
+     boxes flagged dead; the collector invariant holds there *)
+  Theorem gc_unobservable_steps : forall k r n n', VMInv prog r -> vsim r n ->
+    steps_ng k n = Ok n' -> n_alloc (v_heap n') + 1 < 2 ^ 60 ->
+    exists r', CompileCorrectA.steps orc prog k r = Ok r' /\ vsim r' n' /\ VMInv prog r'.
+  Proof.
+    induction k as [|k IH]; intros r n n' HI V E Hb; cbn [steps_ng CompileCorrectA.steps] in *.
+    - inversion E; subst n'. exists r. auto.
+    - destruct (step_ng n) as [[n1|v n1]| | |] eqn:E1; try discriminate E.
+      pose proof (ng_alloc_mono n n1 E1) as M1. pose proof (steps_ng_mono k n1 n' E) as M2.
+      assert (addr_bounded r) as Hbr by (unfold addr_bounded; rewrite (vsim_nalloc r n V); lia).
+      pose proof (gc_lockstep r n HI Hbr V) as L. rewrite E1 in L.
+      destruct (step orc prog r) as [[r1|w r1]|e|f|] eqn:Er; cbn [same_step] in L; try contradiction.
+      exact (IH r1 n1 n' (vm_inv_step orc prog r r1 HI Er) L E Hb).
+  Qed.
+
+  (* ... and what stops the one stops the other, in the same way *)
+  Theorem gc_unobservable_stop : forall r n, VMInv prog r -> vsim r n -> n_alloc (v_heap n) + 1 < 2 ^ 60 ->
+    same_step (step orc prog r) (step_ng n).
+  Proof.
+    intros r n HI V Hb. apply gc_lockstep; [exact HI| |exact V].
+    unfold addr_bounded. rewrite (vsim_nalloc r n V). exact Hb.
+  Qed.
+End Machine.
+
+(** * Reachability seen through the relation *)
+
+(* a box that is alive in the real heap has the same contents in both heaps, so what the real
+   machine can reach from a set of roots whose boxes are alive and closed under contents is
+   what the collection-free machine reaches *)
+Lemma hle_find_alive : forall hr hn l o, hle hr hn -> PM.find l (cells hr) = Some (true, o) ->
+  PM.find l (cells hn) = Some (true, o).
+Proof.
+  intros hr hn l o H E. rewrite (hle_cells _ _ H l); [exact E|]. unfold h_alive. rewrite E. reflexivity.
+Qed.
+
+Lemma hle_h_get : forall hr hn l o, hle hr hn -> h_get hr l = Ok o -> h_get hn l = Ok o.
+Proof.
+  intros hr hn l o H E. pose proof (hle_get hr hn H l) as G. rewrite E in G. destruct G as [b [G <-]]. exact G.
+Qed.
+
+Print Assumptions gc_lockstep.
+Print Assumptions collect_hle.
+Print Assumptions gc_unobservable_steps.
+Print Assumptions ng_alloc_mono.
